@@ -278,6 +278,19 @@ func cmdCheck(args []string) {
 			report(so.Name, map[string]any{"kind": "structural", "clause": so.Clause, "detail": so.Output, "pos": so.Pos}, true)
 		}
 	}
+	bounded := runBounded(*verif, *repo, *prop)
+	for _, br := range bounded {
+		switch {
+		case !br.Ran:
+			report("bounded:"+br.Name, map[string]any{"reason": "the bounded check did not build or run (the code it exercises changed shape?)", "output": br.Output}, true)
+		case br.Cases == 0:
+			report("bounded:"+br.Name, map[string]any{"reason": "vacuity: the bounded check explored no case", "output": br.Output}, true)
+		case br.Failures > 0:
+			var fi any
+			json.Unmarshal([]byte(br.FirstFail), &fi)
+			report("bounded:"+br.Name, map[string]any{"kind": "bounded", "reason": "the real code violates the contract on an input of the bounded family", "failures": br.Failures, "cases": br.Cases, "failing_input": fi, "bound": br.Bound}, false)
+		}
+	}
 	if claimed == 0 && violations == 0 {
 		report("no-obligations", map[string]any{"reason": "vacuity: no obligation was generated for this property"}, true)
 	}
@@ -292,8 +305,12 @@ func cmdCheck(args []string) {
 	for _, vc := range vcs {
 		notes = append(notes, vc.notes...)
 	}
+	extraCov := map[string]any{}
+	if len(bounded) > 0 {
+		extraCov["bounded"] = bounded
+	}
 	ev := &evidenceData{funcs: funcs, claimed: claimed, discharged: discharged, covers: covers, known: knownN, bySolver: bySolver, solverTime: solverTime, samples: samples, notes: notes, trusted: trusted}
-	writeEvidence(*verif, *prop, *tier, *level, seed, t0, p, ev, knownLines, violations, nil, *noEvidence, vcs)
+	writeEvidence(*verif, *prop, *tier, *level, seed, t0, p, ev, knownLines, violations, extraCov, *noEvidence, vcs)
 	fmt.Printf("property %s: %d obligations, %d discharged, %d known findings, %d vacuity probes, %d violations, %.1fs\n", *prop, claimed, discharged, knownN, covers, violations, time.Since(t0).Seconds())
 	if violations > 0 {
 		os.Exit(1)
